@@ -45,7 +45,10 @@ class C16(object):
             "rationals; (b) sequences of evaluations in one process - one or two calls of join / meet / insert_join / "
             "insert_meet / gk_common_information / mss / insert_mss on the default (Cartesian), dense or pruned presentation "
             "of the same joint distribution precede the case's evaluation (calls limited to 9 atoms per sigma-algebra), each "
-            "judged by the clauses that do not depend on the sample space. A case has 20 s (common informations 120 s), "
+            "judged by the clauses that do not depend on the sample space. Also: atom_set(method=1) against the definition on "
+            "families whose atoms are all singletons (point-separating generators added; families with a larger atom are "
+            "executed, not judged: dit is wrong there, reported); info_trim on the default / dense (Cartesian sample space) "
+            "and pruned presentations with rvs given or left out, the result validated and re-measured by dit itself. A case has 20 s (common informations 120 s), "
             "otherwise it is dropped and counted as case-timeout")
     tolerances = {'entropies': 'atol 1e-9', 'chain': 'slack 1e-8', 'mss rows': 'generated conditional rows are equal or differ by >= 1e-3 (dit compares with is_approx_equal)'}
     exhaustive = {}
@@ -95,6 +98,29 @@ class C16(object):
                 c = self.order_case(rng, c, keep_kind=True)
             c['prelude'] = self.gen_prelude(rng, c)
             yield self.bound_cost(c)
+        # ---- (added after the streams above so that their cases stay the same) families that separate every point: all
+        # atoms are singletons, the class on which atom_set(method=1) is judged
+        for _ in range(10 if tier == 'quick' else 200):
+            m = rng.randint(1, 5)
+            X = sorted(rng.sample(range(12), m))
+            how = rng.choice(['singletons', 'prefixes', 'bits'])
+            if how == 'singletons':
+                C = [[x] for x in X[:rng.choice([m, m, max(1, m - 1)])]]
+            elif how == 'prefixes':
+                C = [X[:k] for k in range(1, m + 1)]
+            else:
+                C = [c for c in ([x for i, x in enumerate(X) if (i >> b) & 1] for b in range(3)) if c] or [[X[0]]]
+            rng.shuffle(C)
+            yield {'kind': 'sigalg', 'style': 'separating', 'C': C, 'X': X if rng.random() < 0.5 else None,
+                   'drop': rng.randrange(64), 'klass': 'tuple', 'n': 0, 'names': False, 'idx': 0, 'outs': []}
+        # ---- info_trim on the presentations with a Cartesian sample space (as constructed / dense with stored zeros;
+        # the result then gets the Cartesian product of its alphabets as sample space) and with `rvs` left out
+        for _ in range(24 if tier == 'quick' else 400):
+            c = self.dist_case(rng)
+            c['kind'], c['extra'] = 'trim', []
+            c['pres'] = rng.choice(['default', 'default', 'dense', 'pruned'])
+            c['rvs_given'] = rng.random() < 0.6
+            yield c
 
     @staticmethod
     def bound_cost(c):
@@ -494,6 +520,23 @@ class C16(object):
             if a_impl != a_model:
                 r.mismatch = 'atom_set(%s): impl %s model %s' % (fam, a_impl, a_model)
                 return
+            # the option method=1 (enumeration of the subsets of every member) must name the same atoms. Reference from the
+            # definition: the non-empty members with no non-empty proper subset among the members.
+            # NOT JUDGED on families that have an atom of two or more elements: there dit is wrong on the unchanged tree
+            # (`sorted(powerset(cet))[1:-1]` is meant to drop the empty and the full subset, but after sorting the last
+            # tuple is not the full one, so the member itself is found "inside" itself and is rejected - e.g.
+            # atom_set(sigma_algebra({{1,2},{3}}), method=1) = {{3}} instead of {{1,2},{3}}; the outcome even depends on
+            # the iteration order of the frozenset). Reported, not repaired; the call is still made there (it must not raise).
+            ref_atoms = self.fam(a for a in Ff if a and not any(b and b < a for b in Ff))
+            a_one = self.fam(atom_set(Ff, method=1))
+            if all(len(a) == 1 for a in ref_atoms):
+                r.features.append('atom_set:method=1')
+                if a_one != ref_atoms:
+                    r.oracle_fail = ('atom_set(%s, method=1) = %s, but the non-empty members without a non-empty proper subset '
+                                     'among the members are %s (method=2 gives %s)' % (fam, a_one, ref_atoms, a_impl))
+                    return
+            else:
+                r.features.append('atom_set:method=1:not-judged(atom of 2+ elements)')
         # atoms of the generated algebra: a partition of the whole set into blocks of identical membership
         atoms = atom_set(set(F))
         if sorted(x for a in atoms for x in a) != sorted(U):
@@ -577,10 +620,19 @@ class C16(object):
     def run_trim(self, case, drv, r):
         dit = import_dit()
         from dit.algorithms.minimal_sufficient_statistic import info_trim
-        d = self.build(case)
+        # the presentation of the argument: 'pruned' (sample space = support), or one with a Cartesian sample space
+        # ('default' as constructed, 'dense' with the zero-probability outcomes stored) - info_trim then gives its result
+        # the Cartesian product of the result's alphabets as sample space; `rvs` left out means every variable on its own
+        pres = case.get('pres', 'pruned')
+        d = self.present(case, pres)
         n = case['n']
         groups = [[i] for i in range(n)]
-        dt = info_trim(d, [self.nm(case, g) for g in groups])
+        if case.get('rvs_given', True):
+            dt = info_trim(d, [self.nm(case, g) for g in groups])
+        else:
+            dt = info_trim(d)
+        if 'pres' in case:
+            r.features += ['trim:pres=%s' % pres, 'trim:rvs=%s' % ('given' if case.get('rvs_given', True) else 'None')]
         tab = [[o, q(Fraction(p))] for o, p in zip(case['outs'], case['pmf'])]
         labels = []
         for gi in groups:
@@ -612,6 +664,26 @@ class C16(object):
         for a, b in itertools.combinations(range(n), 2):
             if abs(mi(rows_i, a, b) - mi(rows_s, a, b)) > 1e-9:
                 r.oracle_fail = 'info_trim changed I(X%d:X%d): %r -> %r' % (a, b, mi(rows_s, a, b), mi(rows_i, a, b))
+                return
+        # the result as an object (its sample space is rebuilt by info_trim when the argument's was Cartesian): its stored
+        # outcomes belong to its own sample space, and dit's own mutual informations, which marginalise through that
+        # sample space, are those of the source
+        try:
+            dt.validate()
+        except Exception as e:  # noqa
+            r.oracle_fail = 'the result of info_trim on the %s presentation is not a valid distribution: %s: %s' % (
+                pres, type(e).__name__, str(e)[:120])
+            return
+        space = set(dt.sample_space())
+        if any(o not in space for o in dt.outcomes):
+            r.oracle_fail = 'the result of info_trim on the %s presentation stores outcomes outside its sample space' % pres
+            return
+        from dit.shannon import mutual_information
+        for a, b in itertools.combinations(range(n), 2):
+            v = float(mutual_information(dt, [a], [b], rv_mode='indices'))
+            if abs(v - mi(rows_s, a, b)) > 1e-9:
+                r.oracle_fail = 'info_trim on the %s presentation: dit computes I(X%d:X%d) = %r on the result, %r in the source' % (
+                    pres, a, b, v, mi(rows_s, a, b))
                 return
 
     def run_join(self, case, drv, r):
